@@ -66,13 +66,22 @@ func TestSubset(t *testing.T) {
 
 func TestRejected(t *testing.T) {
 	cases := []struct{ name, msg string }{
-		{"Shadow", "two variables named a"},
 		{"DivVar", "division by something that is not a non-zero constant"},
-		{"ShiftSigned", "conversion Int -> Nat"},
 		{"Closure", "captured by a closure and reassigned"},
 		{"Break", "branch statement in switch"},
-		{"CallsPanicky", "may panic"},
-		{"Slice", "parameter type []int"},
+		{"AssignAbs", "assignment target"},
+		{"RangeAssign", "the slice ranged over is assigned"},
+		{"UndeclaredGlobal", "not among the globals declared"},
+		{"BreakInSwitch", "break inside a switch"},
+		{"CondPanic", "under the right operand of && / ||"},
+		{"LeLoopBreak", "`<=` loop over a fixed-width variable with break / return"},
+		{"Labelled", "statement *ast.LabeledStmt"},
+		{"SliceHigh", "slice expression (only s[a:])"},
+		{"WhileNoFuel", "no fuel given"},
+		{"ElemGlobal", "not among the globals declared"},
+		{"AliasAppend", "append outside `x = append(x, ...)`"},
+		{"AliasCopy", "is assigned from a value that may share its backing array"},
+		{"AliasParams", "could share its backing array with another slice parameter"},
 		{"NoFuel", "no fuel given"},
 		{"Undeclared", "not among the views declared"},
 	}
@@ -87,4 +96,93 @@ func TestRejected(t *testing.T) {
 			}
 		})
 	}
+}
+
+// TestSlices pins the second-round translation (slices.go): guards for index panics (with short-circuit operators),
+// hoisted panicking calls, the loop forms, append / make / len / nil, literals, globals, `init` writing a global.
+func TestSlices(t *testing.T) {
+	wl := []fnSpec{
+		{dir: "pos2", file: "pos2.go", name: "Get", lean: "get"},
+		{dir: "pos2", file: "pos2.go", name: "Short", lean: "short"},
+		{dir: "pos2", file: "pos2.go", name: "mayPanic", lean: "mayPanic"},
+		{dir: "pos2", file: "pos2.go", name: "Hoist", lean: "hoist"},
+		{dir: "pos2", file: "pos2.go", name: "Any", lean: "any"},
+		{dir: "pos2", file: "pos2.go", name: "Same", lean: "same"},
+		{dir: "pos2", file: "pos2.go", name: "Evens", lean: "evens"},
+		{dir: "pos2", file: "pos2.go", name: "Down", lean: "down"},
+		{dir: "pos2", file: "pos2.go", name: "UpTo", lean: "upTo"},
+		{dir: "pos2", file: "pos2.go", name: "Fill", lean: "fill"},
+		{dir: "pos2", file: "pos2.go", name: "Move", lean: "move"},
+		{dir: "pos2", file: "pos2.go", name: "Cell", lean: "cell", globals: "table", views: map[string]string{"b": "cells"}},
+		{dir: "pos2", file: "pos2.go", name: "Sum", lean: "sum"},
+		{dir: "pos2", file: "pos2.go", name: "Three", lean: "three"},
+		{dir: "pos2", file: "pos2.go", name: "Apply", lean: "apply"},
+		{dir: "pos2", file: "pos2.go", name: "Twice", lean: "twice"},
+		{dir: "pos2", file: "pos2.go", name: "Bit", lean: "bit", round2: true},
+		{dir: "pos2", file: "pos2.go", name: "Iter", lean: "iter", fuel: []string{"9"}},
+		{dir: "pos2", file: "pos2.go", name: "mk", lean: "mk"},
+		{dir: "pos2", file: "pos2.go", name: "init", lean: "rowsInit", globals: "rows", writes: "rows"},
+		{dir: "neg", file: "neg.go", name: "Shadow", lean: "shadow"},
+	}
+	withWhitelist(t, []string{""}, wl, func(out map[string]string, errs []error) {
+		for _, e := range errs {
+			t.Errorf("unexpected failure: %v", e)
+		}
+		src := out["Funcs.lean"]
+		for _, want := range []string{
+			// an index read: explicit guard, then getD
+			"def get (a : Array (Int)) (i : Int) : Option (Int) :=\n  if !(decide ((0 : Int) ≤ i) && decide (i < Int.ofNat a.size)) then none else\n  some ((a.getD i.toNat (0 : Int)))",
+			// `ok || a[i] > 0`: the index is only checked when ok is false
+			"if (!ok && (!(decide ((0 : Int) ≤ i) && decide (i < Int.ofNat a.size)))) then none else",
+			// a panicking callee is bound in front of the statement
+			"def hoist (k : Int) : Option (Int) :=\n  match (mayPanic k) with\n  | none => none\n  | some tmp0 =>\n  some ((tmp0 + (1 : Int)))",
+			// range with break: structural recursion over the list, break = return the state
+			"def any_loop0 (m : BitVec 64) : List (BitVec 64) → Bool → Bool\n  | [], sv_ => sv_\n  | x :: tl_, sv_ =>",
+			"let found := any_loop0 m (xs).toList found",
+			// range with index and return: Except.error = early return
+			"def same_loop0 (a : Array (BitVec 8)) (b : Array (BitVec 8)) : List (BitVec 8) → Int → Unit → Option (Except (Bool) Unit)",
+			"| some (.error rv_) => some (rv_)\n  | some (.ok ()) =>\n  some (true)",
+			// counted int loop with continue, append of a struct literal (missing field = zero)
+			"def evens_loop0 (bnd_ : Int) : Nat → Array (Pt) → Array (Pt)",
+			"let i : Int := bnd_ - Int.ofNat (fuel+1)",
+			"(out.push ({ X := (wrap8 i), Y := (0 : Int) } : Pt))",
+			"let out := evens_loop0 n (n - (0 : Int)).toNat out",
+			// down-counting loop
+			"let i : Int := bnd_ + Int.ofNat fuel",
+			"match down_loop0 a (0 : Int) (((Int.ofNat a.size) - (1 : Int)) - (0 : Int) + 1).toNat s with",
+			// `i <= b` over a byte never ends for b = 255
+			"if b == 255#8 then none else\n  match upTo_loop0 ((b).toNat + 1) (((b).toNat + 1) - (1#8).toNat) n with",
+			// make, len, nil, element assignment
+			"let sq : Array (BitVec 8) := (Array.replicate n.toNat 0#8)",
+			"if ((Int.ofNat sq.size) == (0 : Int)) then\n    some (#[])",
+			"if !(decide (0 < sq.size)) then none else\n    let sq := sq.setIfInBounds 0 7#8",
+			// field update of a struct value
+			"let q : Pt := { q with X := (wrap8 (q.X + d)) }",
+			// a declared global and a slice-typed view
+			"def cell (g_table : Array (BitVec 64)) (b_cells : Array (BitVec 8)) (i : Nat) : Option (BitVec 64) :=\n  if !(decide (i < g_table.size)) || !(decide (i < b_cells.size)) then none else",
+			// variadic call
+			"def three  : Int :=\n  (sum #[(1 : Int), (2 : Int), (3 : Int)])",
+			// function-typed parameter
+			"def apply (f : Int → Int → (Int × Int)) (p : Pt) : Pt :=",
+			"let (out_X, out_Y) := (f p.X p.Y)",
+			// two variables of one name: the second gets a name of its own
+			"| v_1 :: tl_, sv_ =>",
+			"def shadow (a : Int) : Int :=\n  if (decide (a > (0 : Int))) then\n    let a_1 : Int := (2 : Int)\n    a_1\n  else\n    a",
+			// second-round shift
+			"(shl 1#64 ((Int.toNat (x % 18446744073709551616))))",
+			// general loop: fuel from the whitelist, return inside
+			"def iter_loop0 : Nat → (BitVec 32 × Int) → Option (Except (Int) (BitVec 32 × Int))\n  | 0, _ => none",
+			"match iter_loop0 (9) (it, n) with",
+			// init assigning a global: the variable is parameter and result
+			"def rowsInit (g_rows : Array (Array (BitVec 32))) : Option (Array (Array (BitVec 32))) :=\n  let g_rows : Array (Array (BitVec 32)) := (Array.replicate 3 #[])",
+			"let g_rows := g_rows.setIfInBounds k.toNat (mk k)",
+		} {
+			if !strings.Contains(src, want) {
+				t.Errorf("generated source lacks:\n%s", want)
+			}
+		}
+		if t.Failed() {
+			t.Logf("generated:\n%s", src)
+		}
+	})
 }
